@@ -14,10 +14,10 @@ BUILTIN_FUNS = []
 
 PROFILES = {
     # name: constants of DocGen.tla ; different profiles balance the random walk toward different parts of the universe
-    "struct": dict(MaxTempl=2, MaxLoc=3, MaxBp=1, MaxEdge=4, MaxInst=1, MaxProc=2, Budget=18, PoolCap=12),
-    "labels": dict(MaxTempl=1, MaxLoc=2, MaxBp=1, MaxEdge=2, MaxInst=1, MaxProc=1, Budget=14, PoolCap=12),
+    "struct": dict(MaxTempl=2, MaxLoc=3, MaxBp=1, MaxEdge=4, MaxInst=1, MaxProc=2, Budget=18, PoolCap=13),
+    "labels": dict(MaxTempl=1, MaxLoc=2, MaxBp=1, MaxEdge=2, MaxInst=1, MaxProc=1, Budget=14, PoolCap=13),
     "system": dict(MaxTempl=2, MaxLoc=1, MaxBp=0, MaxEdge=1, MaxInst=4, MaxProc=3, Budget=9, PoolCap=2),
-    "mixed": dict(MaxTempl=3, MaxLoc=3, MaxBp=1, MaxEdge=4, MaxInst=3, MaxProc=3, Budget=26, PoolCap=12),
+    "mixed": dict(MaxTempl=3, MaxLoc=3, MaxBp=1, MaxEdge=4, MaxInst=3, MaxProc=3, Budget=26, PoolCap=13),
 }
 BFS = dict(MaxTempl=1, MaxLoc=2, MaxBp=1, MaxEdge=2, MaxInst=1, MaxProc=1, Budget=2, PoolCap=1)
 
